@@ -536,55 +536,61 @@ func TestListModel(t *testing.T) {
 		}
 		return
 	}
-	rapid.Check(t, func(t *rapid.T) {
-		w := newWorld(t)
-		next := 0
-		val := func() int { next++; return next }
-		list := func() int { return rapid.IntRange(0, 1).Draw(t, "list") }
-		// handle index: mostly a live handle, sometimes nil (-1)
-		hnd := func(label string) int {
-			if len(w.hs) == 0 || rapid.IntRange(0, 19).Draw(t, label+"-nil") == 0 {
-				return -1
-			}
-			return rapid.IntRange(0, len(w.hs)-1).Draw(t, label)
-		}
-		smallVal := func() int {
-			if rapid.Bool().Draw(t, "dup") {
-				return rapid.IntRange(0, 3).Draw(t, "v")
-			}
-			return val() + 10
-		}
-		t.Repeat(map[string]func(*rapid.T){
-			"PushBack":   func(*rapid.T) { w.apply(Op{Op: "PushBack", L: list(), V: smallVal()}) },
-			"PushFront":  func(*rapid.T) { w.apply(Op{Op: "PushFront", L: list(), V: smallVal()}) },
-			"Append":     func(*rapid.T) { w.apply(Op{Op: "Append", L: list(), V: val() + 10}) },
-			"PopFront":   func(*rapid.T) { w.apply(Op{Op: "PopFront", L: list()}) },
-			"PopBack":    func(*rapid.T) { w.apply(Op{Op: "PopBack", L: list()}) },
-			"NewElement": func(*rapid.T) { w.apply(Op{Op: "NewElement", V: smallVal()}) },
-			"RootHandle": func(*rapid.T) { w.apply(Op{Op: "RootHandle", L: list()}) },
-			"ElemAppend": func(*rapid.T) { w.apply(Op{Op: "ElemAppend", A: hnd("a"), B: hnd("b")}) },
-			"Remove":     func(*rapid.T) { w.apply(Op{Op: "Remove", A: hnd("a")}) },
-			"Drop":       func(*rapid.T) { w.apply(Op{Op: "Drop", A: hnd("a")}) },
-			"Set":        func(*rapid.T) { w.apply(Op{Op: "Set", A: hnd("a"), V: smallVal()}) },
-			"Swap": func(t *rapid.T) {
-				o := Op{Op: "Swap", A: hnd("a"), B: hnd("b")}
-				if swapValid(w.h(o.A), w.h(o.B)) && vkit.Known("C16:list/Swap") {
-					vkit.Excluded(tList, "C16:list/Swap")
-					t.Skip("open known finding: a successful Swap corrupts the list")
-				}
-				w.apply(o)
-			},
-			"Extend":        func(*rapid.T) { w.apply(Op{Op: "Extend", L: list()}) },
-			"SortQuick":     func(*rapid.T) { w.apply(Op{Op: "SortQuick", L: list()}) },
-			"SortMerge":     func(*rapid.T) { w.apply(Op{Op: "SortMerge", L: list()}) },
-			"JSON":          func(*rapid.T) { w.apply(Op{Op: "JSON", L: list()}) },
-			"UnmarshalInto": func(*rapid.T) { w.apply(Op{Op: "UnmarshalInto", L: list()}) },
-			"Copy":          func(*rapid.T) { w.apply(Op{Op: "Copy", L: list()}) },
-			"PopIterator":   func(*rapid.T) { w.apply(Op{Op: "PopIterator", L: list()}) },
-			"PopReverse":    func(*rapid.T) { w.apply(Op{Op: "PopReverse", L: list()}) },
-			"NilAccessors":  func(*rapid.T) { w.apply(Op{Op: "NilAccessors", L: list()}) },
-			"FromIterator":  func(*rapid.T) { w.apply(Op{Op: "FromIterator", L: list()}) },
-		})
-		w.finish()
-	})
+	rapid.Check(t, propListModel)
 }
+
+// propListModel is the generated property; FuzzListModel drives the same function with
+// the native coverage-guided fuzzer (rapid.MakeFuzz decodes the bytes).
+func propListModel(t *rapid.T) {
+	w := newWorld(t)
+	next := 0
+	val := func() int { next++; return next }
+	list := func() int { return rapid.IntRange(0, 1).Draw(t, "list") }
+	// handle index: mostly a live handle, sometimes nil (-1)
+	hnd := func(label string) int {
+		if len(w.hs) == 0 || rapid.IntRange(0, 19).Draw(t, label+"-nil") == 0 {
+			return -1
+		}
+		return rapid.IntRange(0, len(w.hs)-1).Draw(t, label)
+	}
+	smallVal := func() int {
+		if rapid.Bool().Draw(t, "dup") {
+			return rapid.IntRange(0, 3).Draw(t, "v")
+		}
+		return val() + 10
+	}
+	t.Repeat(map[string]func(*rapid.T){
+		"PushBack":   func(*rapid.T) { w.apply(Op{Op: "PushBack", L: list(), V: smallVal()}) },
+		"PushFront":  func(*rapid.T) { w.apply(Op{Op: "PushFront", L: list(), V: smallVal()}) },
+		"Append":     func(*rapid.T) { w.apply(Op{Op: "Append", L: list(), V: val() + 10}) },
+		"PopFront":   func(*rapid.T) { w.apply(Op{Op: "PopFront", L: list()}) },
+		"PopBack":    func(*rapid.T) { w.apply(Op{Op: "PopBack", L: list()}) },
+		"NewElement": func(*rapid.T) { w.apply(Op{Op: "NewElement", V: smallVal()}) },
+		"RootHandle": func(*rapid.T) { w.apply(Op{Op: "RootHandle", L: list()}) },
+		"ElemAppend": func(*rapid.T) { w.apply(Op{Op: "ElemAppend", A: hnd("a"), B: hnd("b")}) },
+		"Remove":     func(*rapid.T) { w.apply(Op{Op: "Remove", A: hnd("a")}) },
+		"Drop":       func(*rapid.T) { w.apply(Op{Op: "Drop", A: hnd("a")}) },
+		"Set":        func(*rapid.T) { w.apply(Op{Op: "Set", A: hnd("a"), V: smallVal()}) },
+		"Swap": func(t *rapid.T) {
+			o := Op{Op: "Swap", A: hnd("a"), B: hnd("b")}
+			if swapValid(w.h(o.A), w.h(o.B)) && vkit.Known("C16:list/Swap") {
+				vkit.Excluded(tList, "C16:list/Swap")
+				t.Skip("open known finding: a successful Swap corrupts the list")
+			}
+			w.apply(o)
+		},
+		"Extend":        func(*rapid.T) { w.apply(Op{Op: "Extend", L: list()}) },
+		"SortQuick":     func(*rapid.T) { w.apply(Op{Op: "SortQuick", L: list()}) },
+		"SortMerge":     func(*rapid.T) { w.apply(Op{Op: "SortMerge", L: list()}) },
+		"JSON":          func(*rapid.T) { w.apply(Op{Op: "JSON", L: list()}) },
+		"UnmarshalInto": func(*rapid.T) { w.apply(Op{Op: "UnmarshalInto", L: list()}) },
+		"Copy":          func(*rapid.T) { w.apply(Op{Op: "Copy", L: list()}) },
+		"PopIterator":   func(*rapid.T) { w.apply(Op{Op: "PopIterator", L: list()}) },
+		"PopReverse":    func(*rapid.T) { w.apply(Op{Op: "PopReverse", L: list()}) },
+		"NilAccessors":  func(*rapid.T) { w.apply(Op{Op: "NilAccessors", L: list()}) },
+		"FromIterator":  func(*rapid.T) { w.apply(Op{Op: "FromIterator", L: list()}) },
+	})
+	w.finish()
+}
+
+func FuzzListModel(f *testing.F) { f.Fuzz(rapid.MakeFuzz(propListModel)) }
